@@ -29,6 +29,9 @@ pub enum G {
 pub struct C10Case {
 	pub steps: Vec<(G, bool)>,
 	pub buf: u32,
+	/// server WebSocket pings enabled (the peer answers with pongs while it is reading)
+	#[serde(default)]
+	pub ping: bool,
 }
 
 enum Peer {
@@ -84,7 +87,10 @@ fn unfinished(log: &[Invocation]) -> Vec<String> {
 
 async fn run_mem(case: &C10Case, obs: &mut Obs) {
 	crate::panics::clear_local();
-	let fix = Fixture::new(Cfg { buffer_capacity: case.buf.max(1), ..Cfg::default() });
+	// with pings every barrier (1 h of the paused clock) lets several ping/pong rounds happen, also during a graceful
+	// shutdown; the inactivity limit itself is measured on the real clock by the server and never fires here
+	let ping = if case.ping && !case.steps.iter().any(|(g, _)| matches!(g, G::PauseRead { .. })) { Some((900, 1_000_000)) } else { None };
+	let fix = Fixture::new(Cfg { buffer_capacity: case.buf.max(1), ping, ..Cfg::default() });
 	let Fixture { ctx, methods, builder, stop, handle, .. } = fix;
 	let mut stop = Some(stop);
 	let mut conns: Vec<ConnS> = vec![];
@@ -316,6 +322,9 @@ async fn run_mem(case: &C10Case, obs: &mut Obs) {
 		obs.class("with-ws-connection");
 	}
 	obs.class(format!("connections:{}", conns.len()));
+	if ping.is_some() {
+		obs.class("with-ws-ping");
+	}
 	for (s, d) in fails {
 		obs.fail(s, format!("{d}; case={case:?}"));
 	}
@@ -342,10 +351,10 @@ impl SubCheck for StopMem {
 			1 => any::<u16>().prop_map(|conn| G::PauseRead { conn }),
 			1 => any::<u16>().prop_map(|conn| G::ResumeRead { conn }),
 		];
-		(proptest::collection::vec((g, proptest::bool::weighted(0.7)), 1..max), proptest::sample::select(vec![1u32, 2, 1024]), any::<bool>())
-			.prop_map(|(mut steps, buf, http_first)| {
+		(proptest::collection::vec((g, proptest::bool::weighted(0.7)), 1..max), proptest::sample::select(vec![1u32, 2, 1024]), any::<bool>(), proptest::bool::weighted(0.35))
+			.prop_map(|(mut steps, buf, http_first, ping)| {
 				steps.insert(0, (if http_first { G::OpenHttp } else { G::OpenWs }, true));
-				C10Case { steps, buf }
+				C10Case { steps, buf, ping }
 			})
 			.boxed()
 	}
